@@ -173,6 +173,12 @@ type StunServerConn struct {
 
 func (c *StunServerConn) Close() {
 	c.conn.Close()
+	// The listener goroutine may be blocked handing over a message that no
+	// RoundTrip is going to receive (a duplicate or stray response). Take
+	// messages until it has seen the closed socket and closed the channel,
+	// so that it always exits.
+	for range c.messageChan {
+	}
 }
 
 func (c *StunServerConn) RoundTrip(msg *stun.Message, addr net.Addr) (*stun.Message, error) {
